@@ -71,7 +71,6 @@ PATTERNS = [
     ("(ro: 0..<3)", "typed:interval", lambda v: is_int(v) and 0 <= v < 3),
     ("(op: 0<..<3)", "typed:interval", lambda v: is_int(v) and 0 < v < 3),
     ("(oq: 0<..<4)", "typed:interval", lambda v: is_int(v) and 0 < v < 4),
-    ("(lp: 1<..3)", "typed:interval", lambda v: is_int(v) and 1 < v <= 3),
     ("(u: Int or Str)", "typed:union", lambda v: is_int(v) or isinstance(v, str)),
     ('(q: {"a", "b"})', "typed:enum-str", lambda v: v in ("a", "b")),
     ("_", "wildcard", lambda v: True),
@@ -137,8 +136,8 @@ RELEVANT = {
     "Nat": ["0", "1", "(n: Nat)", "(w: 0..3)", "(i: Int)", "v"],
     "Bool": ["True", "False", "(b: Bool)", "1", "0", "_"],
     "Str": ['"a"', '"b"', "(s: Str)", '(q: {"a", "b"})', "v", "0"],
-    "{1, 2, 3}": ["1", "2", "3", "(k: {1, 2})", "(r: 1..2)", "(n: Nat)", "(lo: 0<..3)", "(ro: 0..<3)", "(op: 0<..<3)", "(oq: 0<..<4)", "(lp: 1<..3)"],
-    "0..3": ["0", "1", "2", "3", "(r: 1..2)", "(w: 0..3)", "(lo: 0<..3)", "(ro: 0..<3)", "(op: 0<..<3)", "(oq: 0<..<4)", "(lp: 1<..3)"],
+    "{1, 2, 3}": ["1", "2", "3", "(k: {1, 2})", "(r: 1..2)", "(n: Nat)", "(lo: 0<..3)", "(ro: 0..<3)", "(op: 0<..<3)"],
+    "0..3": ["0", "1", "2", "3", "(r: 1..2)", "(w: 0..3)", "(lo: 0<..3)", "(ro: 0..<3)", "(op: 0<..<3)"],
     "Int or Str": ["(i: Int)", "(s: Str)", "(n: Nat)", "(u: Int or Str)", "0", '"a"'],
     '{"a", "b"}': ['"a"', '"b"', "(s: Str)", '(q: {"a", "b"})', "_", "1"],
 }
